@@ -164,7 +164,7 @@ def neutralise(g, hz):
 def gen_case(rng):
     """C13's generator with this property's hostile strings; the C13 printer hazards are irrelevant here
     (nothing is pretty-printed) but harmless"""
-    g, start, feats, pats = MG.gen_case(rng, MG.Profile(hazard_rate=0.10, hostile_rate=0.6, style_rate=0.0))
+    g, start, feats, pats = MG.gen_case(rng, MG.Profile(hazard_rate=0.10, hostile_rate=0.6, style_rate=0.0, nonfinite_rate=0.06))
     r = rng.random()
     if r < 0.16:
         # hostile strings of THIS property, one kind of site at a time
@@ -600,11 +600,23 @@ def do_model_case(acc, rng, route, n_inputs, origin, sample=False):
                 v = model.parse(text, start=start, asmodel=asmodel)
             except Hang:
                 raise
-            except Exception:  # noqa: BLE001
+            except Exception as e:  # noqa: BLE001
+                # no parse result to convert; a non-parse exception under model-building semantics only is
+                # recorded (C07's property, e.g. a numeric first rule parameter), never decided here
+                if asmodel and not _is_failed_parse(e):
+                    acc.count('objectmodel_parse_raised:' + type(e).__name__)
                 continue
             kind = 'object-model' if asmodel else 'ast'
             asjson_case(acc, kind, v, {'kind': 'asjson-parse', 'grammar': L.to_json(g), 'route': route, 'start': start,
                                        'text': text, 'asmodel': asmodel})
+
+
+def _is_failed_parse(e):
+    try:
+        from tatsu.exceptions import ParseException
+        return isinstance(e, ParseException)
+    except Exception:  # noqa: BLE001
+        return False
 
 
 # --------------------------------------------------------------------------- asjson: termination + JSON-ability
